@@ -6,7 +6,7 @@ use response_time_analysis::wcet::{self, JobCostModel};
 use crate::framework::{guard, CaseReport, Monitor, Tier};
 use crate::jobj;
 use crate::json::Json;
-use crate::model::cost::{gen_cost, gen_cumulative, Cost};
+use crate::model::cost::{gen_cost_z, gen_cumulative, gen_cumulative_opt, Cost};
 use crate::rng::Rng;
 
 pub struct C14;
@@ -262,7 +262,7 @@ impl Monitor for C14 {
         "C14"
     }
     fn rule(&self) -> String {
-        "case = (A) one cost model (Scalar, Multiframe, cost curve, extrapolating cost curve): cost_of_jobs(0)=0, non-decreasing, = sum of the first n items of job_cost_iter, least_wcet(n) <= each of these items, for n up to 40; (B) one random trace of 1-40 job costs >= 1 (expensive runs placed anywhere, in particular at the very end) and EVERY max_n in 1..=len+1: wcet::Curve::from_trace must bound the total cost of every run of n consecutive jobs anywhere in the trace for every n up to the trace length (also n > max_n); after extrapolate(k) the curve must not exceed the un-extrapolated values and must still dominate the trace; (C) history on wcet::ExtrapolatingCurve: 1-4 clones, up to 3 live job_cost_iter iterators, 40-200 random cost_of_jobs / least_wcet / next / clone / drop operations, each answer compared with the independent sub-additive closure and with a fresh object; hook H4 checks the shared cache is append-only, equals the closure and is shared by all clones. Non-trivial = trace whose most expensive run of some length lies in its last max_n-1 positions, or a history that extended the cache; distinct = distinct trace / (prefix, history).".to_string()
+        "case = (A) one cost model (Scalar, Multiframe, cost curve, extrapolating cost curve): cost_of_jobs(0)=0, non-decreasing, = sum of the first n items of job_cost_iter, least_wcet(n) <= each of these items, for n up to 40; (B) one random trace of 1-40 job costs (>= 1, in a third of the cases also zero-cost jobs) (expensive runs placed anywhere, in particular at the very end) and EVERY max_n in 1..=len+1: wcet::Curve::from_trace must bound the total cost of every run of n consecutive jobs anywhere in the trace for every n up to the trace length (also n > max_n); after extrapolate(k) the curve must not exceed the un-extrapolated values and must still dominate the trace; (C) history on wcet::ExtrapolatingCurve: 1-4 clones, up to 3 live job_cost_iter iterators, 40-200 random cost_of_jobs / least_wcet / next / clone / drop operations, each answer compared with the independent sub-additive closure and with a fresh object; hook H4 checks the shared cache is append-only, equals the closure and is shared by all clones. Non-trivial = trace whose most expensive run of some length lies in its last max_n-1 positions, or a history that extended the cache; distinct = distinct trace / (prefix, history).".to_string()
     }
     fn assumptions(&self) -> Vec<String> {
         vec![
@@ -283,7 +283,7 @@ impl Monitor for C14 {
     fn run_case(&self, _index: u64, seed: u64, _tier: Tier, rep: &mut CaseReport) {
         let mut rng = Rng::new(seed);
         // ------------------------------------------------------------ (A)
-        let cost = gen_cost(&mut rng, 20, false);
+        let cost = gen_cost_z(&mut rng, 20);
         let r = guard(|| {
             let m = cost.build();
             let items: Vec<u64> = m.job_cost_iter().take(40).map(u64::from).collect();
@@ -368,7 +368,8 @@ impl Monitor for C14 {
         // ------------------------------------------------------------ (B)
         let len = rng.usize(1, 40);
         let hi = *rng.pick(&[3u64, 10, 50]);
-        let mut trace: Vec<u64> = (0..len).map(|_| rng.range(1, hi)).collect();
+        let zero_ok = rng.chance(1, 3);
+        let mut trace: Vec<u64> = (0..len).map(|_| if zero_ok && rng.chance(1, 4) { 0 } else { rng.range(1, hi) }).collect();
         // place an expensive run somewhere, often at the very end
         let burst = rng.usize(1, 3.min(len));
         let at = if rng.chance(1, 2) { len - burst } else { rng.usize(0, len - burst) };
@@ -441,7 +442,8 @@ impl Monitor for C14 {
         }
 
         // ------------------------------------------------------------ (C)
-        let prefix = gen_cumulative(&mut rng, 6, 15);
+        let plateau_ok = rng.chance(1, 3);
+        let prefix = gen_cumulative_opt(&mut rng, 6, 15, plateau_ok);
         let hl = rng.usize(40, 200);
         let ops = gen_history(&mut rng, hl, prefix.len());
         let before = rep.counters.get("distinct_cache_lengths_seen").copied().unwrap_or(0);
